@@ -330,6 +330,41 @@ def prelude(tier):
                                                   f"the alphabet {alpha!r} {'contains every character: expected ' + repr(exp[1]) if ok else 'does not contain every character: it must be refused'}"))
                 if len(res["violations"]) >= 5:
                     break
+    # decode of a re-ordered row selection that has not been flattened yet; an encoded array handed to the constructor under ANOTHER alphabet
+    from bionumpy.encoded_array import EncodedArray, EncodedRaggedArray
+    import numpy as _np
+    m = 0
+    for name, alpha in ALPHABETS.items():
+        enc = get_enc(name)
+        rows = [alpha[:2], alpha[2:] + alpha[0], alpha[-1], alpha[1] + alpha[0] + alpha[1]]
+        for sel_name, sel, pick in (("[[1, 0]]", lambda x: x[[1, 0]], [1, 0]), ("[::-1]", lambda x: x[::-1], [3, 2, 1, 0]), ("[[2, 0, 1]]", lambda x: x[[2, 0, 1]], [2, 0, 1]),
+                                    ("[[3, 3, 0]]", lambda x: x[[3, 3, 0]], [3, 3, 0])):
+            m += 1
+            try:
+                got = [r.to_string() for r in enc.decode(sel(as_encoded_array(rows, enc)))]
+            except Exception as e:
+                got = ("raised", type(e).__name__)
+            exp = [rows[i] for i in pick]
+            if got != exp:
+                res["violations"].append(dict(obligation="decode-of-selection", inputs=dict(encoding=name, rows=rows, selection=sel_name), output=repr(got),
+                                              why=f"[real run, concrete probe] {name}.decode(x{sel_name}) for x = {rows} gave {got}, expected {exp}"))
+        for other, oalpha in ALPHABETS.items():
+            if oalpha == alpha or len(oalpha) != len(alpha) or sorted(oalpha) != sorted(alpha):
+                continue
+            m += 1
+            x = as_encoded_array(alpha, enc)
+            for what, make in (("EncodedArray(x, other)", lambda: EncodedArray(x, get_enc(other))),
+                               ("EncodedRaggedArray(EncodedArray(x.ravel(), other), [n])", lambda: EncodedRaggedArray(EncodedArray(x.ravel(), get_enc(other)), [len(alpha)]))):
+                try:
+                    y = make()
+                    txt = get_enc(other).decode(y.ravel()).to_string()
+                    outcome = ("built", txt)
+                except Exception as e:
+                    outcome = ("raised", type(e).__name__)
+                if outcome[0] == "built" and outcome[1] != alpha:
+                    res["violations"].append(dict(obligation="constructor-relabels", inputs=dict(source=name, target=other), output=repr(outcome),
+                                                  why=f"[real run, concrete probe] {what} with x = {alpha!r} encoded as {name} and other = {other}: the codes were taken over "
+                                                      f"unchanged and now read {outcome[1]!r} (an array in another alphabet must be refused or converted)"))
     res["solver_s"] = time.time() - t0
-    res["summary"] = f"str / list-of-str entry point probed on {n} concrete texts per run (control characters, code points >= 128 and >= 256): {len(res['violations'])} deviations"
+    res["summary"] = f"decode of {m} unflattened selections / cross-alphabet constructions probed; str / list-of-str entry point probed on {n} concrete texts per run (control characters, code points >= 128 and >= 256): {len(res['violations'])} deviations"
     return res
